@@ -220,7 +220,9 @@ func (r *schemaLoader) Resolve(ref *Ref, target interface{}, basePath string) er
 	return r.resolveRef(ref, target, basePath)
 }
 
-func (r *schemaLoader) deref(input interface{}, parentRefs []string, basePath string) error {
+// deref follows the chain of $ref held by input. It returns the resolver and the location of the document
+// in which the content now held by input, with the $ref left there if any, has to be interpreted.
+func (r *schemaLoader) deref(input interface{}, parentRefs []string, basePath string) (*schemaLoader, string, error) {
 	var ref *Ref
 	switch refable := input.(type) {
 	case *Schema:
@@ -232,32 +234,34 @@ func (r *schemaLoader) deref(input interface{}, parentRefs []string, basePath st
 	case *PathItem:
 		ref = &refable.Ref
 	default:
-		return fmt.Errorf("unsupported type: %T: %w", input, ErrDerefUnsupportedType)
+		return r, basePath, fmt.Errorf("unsupported type: %T: %w", input, ErrDerefUnsupportedType)
 	}
 
 	curRef := ref.String()
 	if curRef == "" {
-		return nil
+		return r, basePath, nil
 	}
 
 	normalizedRef := normalizeRef(ref, basePath)
 	normalizedBasePath := normalizedRef.RemoteURI()
 
 	if r.isCircular(normalizedRef, basePath, parentRefs...) {
-		return nil
+		return r, basePath, nil
 	}
 
 	if err := r.resolveRef(ref, input, basePath); r.shouldStopOnError(err) {
-		return err
+		return r, basePath, err
 	}
 
 	if ref.String() == "" || ref.String() == curRef {
 		// done with rereferencing
-		return nil
+		return r, basePath, nil
 	}
 
+	// the next $ref of the chain lives in the document just resolved: follow it from there
 	parentRefs = append(parentRefs, normalizedRef.String())
-	return r.deref(input, parentRefs, normalizedBasePath)
+	transitiveResolver := r.transitiveResolver(basePath, *normalizedRef)
+	return transitiveResolver.deref(input, parentRefs, r.updateBasePath(transitiveResolver, normalizedBasePath))
 }
 
 func (r *schemaLoader) shouldStopOnError(err error) bool {
